@@ -43,6 +43,9 @@ type scanSpec struct {
 	// UnaskedMetrics: every response carries scan metrics although the scan did not ask for them
 	// (a field the client did not expect in a well-formed message).
 	UnaskedMetrics bool `json:"unasked_metrics,omitempty"`
+	// CloseOpt: the scan carries the CloseScanner option (every region scanner is closed by the server with
+	// its first response). Generated only where every region answers completely in one response.
+	CloseOpt bool `json:"close_opt,omitempty"`
 	// Twice runs the same scan a second time against the same cached region objects
 	// (a scan must not leave anything behind that changes the next one).
 	Twice bool `json:"twice,omitempty"`
@@ -528,6 +531,9 @@ func newScanCall(ctx context.Context, s scanSpec, extra ...func(hrpc.Call) error
 	}
 	if s.Partials {
 		opts = append(opts, hrpc.AllowPartialResults())
+	}
+	if s.CloseOpt {
+		opts = append(opts, hrpc.CloseScanner())
 	}
 	opts = append(opts, extra...)
 	return hrpc.NewScanRange(ctx, []byte("t"), []byte(s.Start), []byte(s.Stop), opts...)
